@@ -198,6 +198,23 @@ Before the round, reading the property texts for paths no engine drove found
 the `-A` option itself: C16 checked `LoadCode()` through the library only; it
 now also runs `cmd/gmars -A` with two files per invocation.
 
+Tenth round: 17 more (one per property) on the theme "aliasing,
+self-reference and overlap": operands resolving to the same cell, a pointer
+cell that is its own target, images that wrap or are as long as the core,
+queues whose head meets their tail, labels spelled like predefined names, the
+same variable handed in twice. 14 were reported at once. The three misses:
+a load-file comment cut at the *last* `;` instead of the first (C09: every
+comment of the perturbation set contained a single `;`; trailing and inserted
+comments now also contain `;` and syntax-like words); a spawn loop that walks
+the ring from head to tail and loads nothing when the warrior is exactly as
+long as the core and placed off zero (C12: programs were at most three
+instructions long; warriors of length M and M-1 are now rotated through every
+shift); a simulator that reuses its private copy when the same `*WarriorData`
+is added again (C14: the copy-isolation grid added the caller's data once; the
+one variable is now handed to AddWarrior two and three times, to one simulator
+and to two, with every mutation in between, against a run that passes an
+independent deep copy each time).
+
 After these changes all NSEEDS are reported. The table is generated from the last
 run of every seed against the current machinery. (Two of the agents also
 pointed out defects of the unchanged tree while reading: D20 and D21 of
